@@ -397,8 +397,10 @@ def generate(repo=None, out_path=None):
                 failures.append("%s: the BASIC build's text differs from the PROJC build's (Relic.Gen.EdP does not describe it)" % fn)
     os.makedirs(os.path.dirname(out_path), exist_ok=True)
     new = "".join(parts)
-    if ("p255-extnd" not in res or "p255" not in res) and os.path.exists(out_path):
-        return {"obligations": obligations, "failures": failures}      # keep the previous file: the driver imports it
+    if failures and os.path.exists(out_path):
+        # keep the previous file: the driver of EVERY property imports it, and a tree whose Edwards code cannot be translated must
+        # break C17 (through `failures`), not the build of the other properties' driver
+        return {"obligations": obligations, "failures": failures}
     if not (os.path.exists(out_path) and open(out_path).read() == new):
         with open(out_path, "w") as fh:
             fh.write(new)
